@@ -262,11 +262,33 @@ def run_history(ops, full=False):
                     tracked.update(ym)
                     copies.append((x, y, ym, {i_: S.shallow(ob) for i_, (ob, _) in ym.items()}))
             SPY["on"], SPY["calls"], SPY["hook"] = True, [], hook
+            # ordered trace of every attribute assignment write() performs on CaptionSet / CaptionList / Caption /
+            # CaptionNode objects of the INPUT or of (copies of) copies of it (objects the writer creates itself: "new",
+            # not recorded)
+            trace = []
+            input_ids = frozenset(inp)
+            hooked = []
+
+            def rec(self_, name, value, tracked=tracked, trace=trace, input_ids=input_ids):
+                i_ = id(self_)
+                if i_ in input_ids:
+                    trace.append([type(self_).__name__, name, "input"])
+                elif i_ in tracked:
+                    trace.append([type(self_).__name__, name, "copy"])
+                object.__setattr__(self_, name, value)
+            for cls_ in (pycaption.base.CaptionSet, pycaption.base.CaptionList, pycaption.base.Caption,
+                         pycaption.base.CaptionNode):
+                if "__setattr__" not in cls_.__dict__:
+                    cls_.__setattr__ = rec
+                    hooked.append(cls_)
             try:
                 res, exc = guarded(lambda: wr.write(cs, **op.get("kw", {})))
             finally:
                 SPY["on"] = False
                 SPY["hook"] = None
+                for cls_ in hooked:
+                    del cls_.__setattr__
+            o["store_trace"] = trace[:600]
             o["err"] = err_code(exc) if exc is not None else None
             if exc is not None:
                 o["exc"] = repr(exc)[:200]
